@@ -63,10 +63,12 @@ def main():
                 continue
             jobs.append(('refactor', name, f, props))
     bad = 0
+    results = {}
     with concurrent.futures.ProcessPoolExecutor(max_workers=14) as ex:
         for kind, name, out, err in ex.map(job, jobs):
             if out is None:
                 print('%-9s %-8s ERROR %s' % (kind, name, err)); bad += 1; continue
+            results[name] = {'kind': kind, 'reported_by': {k: {'exit': v[0], 'first': v[1][:2]} for k, v in sorted(out.items())}}
             if kind == 'seed':
                 own = name[:3]
                 rc = out.get(own, (0, []))[0]
@@ -83,6 +85,8 @@ def main():
                         for l in v[1]:
                             print('            %s %s' % (k, l[:240]))
     print('regress: %d job(s), %d problem(s)' % (len(jobs), bad))
+    if '--all' in a and not only and '--props' not in a:
+        json.dump(results, open('/verif/seeded/RESULTS.json', 'w'), indent=1, sort_keys=True)
     sys.exit(1 if bad else 0)
 
 
